@@ -549,6 +549,9 @@ func UpdateSnapshotCount(count int) {
 	if count < 0 {
 		panic("count must be positive")
 	}
+	if count == 0 {
+		panic("count must be positive")
+	}
 	ctx := storage.GetContext()
 	oldCount := getSnapshotCount(ctx)
 	if oldCount == count {
